@@ -245,7 +245,15 @@ def run_model(tag: str, imports: list[str], run_fn: str, terms: list[str], shard
         txt += [f"From DL Require Import {i}." for i in imports]
         txt += ["Import ListNotations.", "Close Scope Q_scope.", "Open Scope string_scope.",
                 "Set Printing Width 1000000.", "Set Printing Depth 10000000.", preamble]
-        for t in part:
+        for ti, t in enumerate(part):
+            if isinstance(t, (tuple, list)):
+                # (definitions, expression): inputs that are evaluated once, in their own commands, before the expression is
+                # (a large text read by the model: `Definition x := Eval vm_compute in ...`; "@" in a name is replaced by a
+                # suffix unique to the case)
+                defs, t = t
+                sfx = f"_{k + ti}"
+                txt.append(defs.replace("@", sfx))
+                t = t.replace("@", sfx)
             txt.append(f"Eval vm_compute in (show (({run_fn}) ({t}))).")
         f = d / f"{name}.v"
         f.write_text("\n".join(txt) + "\n")
